@@ -1785,6 +1785,58 @@ def rule_r15(chk, prog):
     chk.floor('C03.R15', 'accepted results built by the worker', n, 1)
 
 
+def rule_r18(chk, prog):
+    chk.rule('C03.R18', 'BvMergeExtend makes progress on everything its '
+             'filter accepts: the filter only accepts a term whose outer '
+             'operator and whose argument\'s operator are the SAME extension '
+             '(mutations() strips the levels of the outer operator only; for '
+             'two different ones it rebuilds the term as it was - a no-op '
+             'that every command accepts, for ever)')
+    from ..boolfn import BoolFn
+    m = prog.mod('mutators_bv')
+    f = m.func('BvMergeExtend.filter')
+    np_ = [a.arg for a in f.args.args if a.arg != 'self'][0]
+
+    def _atom(e):
+        if isinstance(e, ast.Call) and (call_name(e) or '').split('.')[-1] \
+                == 'is_indexed_operator_app' and len(e.args) >= 2 and \
+                isinstance(e.args[1], ast.Constant):
+            tgt = unparse(e.args[0])
+            if tgt == np_:
+                return (('outer', e.args[1].value), True)
+            if tgt == f'{np_}[1]':
+                return (('inner', e.args[1].value), True)
+        raise AnalysisError('C03.R18: BvMergeExtend.filter tests '
+                            f'"{unparse(e)[:60]}", not the operator of the '
+                            'term or of its argument')
+
+    bf = BoolFn(f, _atom)
+    bad = []
+    n = 0
+    for val, res in bf.table():
+        if not res:
+            continue
+        outers = {k[1] for k, v in val.items() if v and k[0] == 'outer'}
+        inners = {k[1] for k, v in val.items() if v and k[0] == 'inner'}
+        # a term has one operator: valuations with two outer (or two inner)
+        # operators at once are infeasible
+        if len(outers) > 1 or len(inners) > 1:
+            continue
+        n += 1
+        if not outers or outers != inners:
+            bad.append((sorted(outers), sorted(inners)))
+    chk.check('C03.R18', 'mutators_bv.BvMergeExtend.filter',
+              'outer and inner operator coincide on every accepted term',
+              not bad,
+              f'the filter accepts a term with outer operator / argument '
+              f'operator {bad[:2]}: mutations() then proposes the term '
+              'itself (it only merges levels of the outer operator), the '
+              'proposal is accepted because nothing changed, and the '
+              'hierarchical strategy accepts it again and again',
+              loc=m.loc(f), nontrivial=True)
+    chk.floor('C03.R18', 'accepting valuations of the filter', n, 2)
+
+
 def run(tier):
     prog = Program()
     chk = Check(
@@ -1902,6 +1954,7 @@ def run(tier):
               'is_const() (the repository\'s source of get_default_constants '
               'and of the predicates is folded on literal sorts)',
               'a cycle of accepted rewrites: the same inputs are visited for ever')
+    chk.guard(rule_r18, chk, prog)
     extra = None
     if tier == 'thorough':
         from .. import selftest
